@@ -17,15 +17,16 @@ LEVEL = "exploration"
 
 PLAN = {
     "quick": {"hashseeds": 12, "shards": 4, "generated": 240, "skip": ["1gid.cif.gz"], "cli_all_variants": False,
-              "timeout": 600, "light_hashseeds": 16, "light_max_cost": 150_000, "adapter_generated": 36, "derived_rounds": 1},
+              "timeout": 600, "light_hashseeds": 16, "light_max_cost": 150_000, "adapter_generated": 36, "derived_rounds": 1, "unifier_generated": 8},
     "thorough": {"hashseeds": 48, "shards": 4, "generated": 4000, "skip": [], "cli_all_variants": True,
-                 "timeout": 5400, "light_hashseeds": 80, "light_max_cost": 150_000, "adapter_generated": 600, "derived_rounds": 8},
+                 "timeout": 5400, "light_hashseeds": 80, "light_max_cost": 150_000, "adapter_generated": 600, "derived_rounds": 8, "unifier_generated": 120},
 }
 
 ASSUMPTIONS = [
     "nondeterminism sources sampled: PYTHONHASHSEED (numeric values and 'random'), process identity / object "
     "addresses (fresh interpreters), repeated computation in one process on freshly built objects, what ran earlier "
-    "in the process (per-interpreter visiting order), log verbosity (every third interpreter at LOGLEVEL=DEBUG)",
+    "in the process (per-interpreter visiting order), log verbosity (every third interpreter at LOGLEVEL=DEBUG), the "
+    "wall clock (interpreters live 0, 401, 802 or 1203 days ahead; monotonic clocks untouched)",
     "corpus = every non-empty .cif/.pdb/.cif.gz under /repo/tests (quick tier skips the slow 1gid.cif.gz), each "
     "with find_gaps in {False, True}; generated secondary structures are seeded and biased towards several "
     "independent knotted groups so that the all-dot-brackets list has >= 2 members",
@@ -149,6 +150,17 @@ def derived_items(tier, seed):
     return out
 
 
+def unifier_generated_items(tier, seed):
+    out = []
+    for i in range(PLAN[tier]["unifier_generated"]):
+        s = rng.stream(NAME, tier, seed, i, "unifier")
+        src = os.path.join(TESTS, s.choice(["1ATO.pdb", "1ATO.pdb", "488d.pdb"]))
+        if os.path.exists(src):
+            out.append({"id": "unifiergen/%d" % i, "type": "unifier_gen", "source": src, "gen_seed": s.getrandbits(48),
+                        "format": s.choice(["keep", "PDB", "mmCIF"]), "cost": 60000})
+    return out
+
+
 def generated_items(tier, seed):
     out = []
     for i in range(PLAN[tier]["generated"]):
@@ -183,6 +195,14 @@ def loglevel_of(hs):
     return "DEBUG" if int(hs) % 3 == 2 else "off"
 
 
+def clock_skew_of(hs):
+    """How many days ahead of the real wall clock the interpreter under hash seed `hs` lives (a pure function of
+    the seed): an output that carries a date differs between interpreters."""
+    if hs == "random":
+        return 0
+    return (int(hs) % 4) * 401
+
+
 def launch(jobs, workers, timeout, tmp):
     """jobs: list of (tag, hashseed, manifest path, out path[, extra env]).  Runs at most `workers` at a time."""
     pending = list(jobs)
@@ -196,6 +216,7 @@ def launch(jobs, workers, timeout, tmp):
             env = dict(os.environ)
             env["PYTHONHASHSEED"] = hs
             env["VERIF_C14_LOGLEVEL"] = loglevel_of(hs)
+            env["VERIF_C14_CLOCK_SKEW_DAYS"] = str(clock_skew_of(hs))
             env.pop("LOGLEVEL", None)
             env.pop("VERIF_KEEP_HASHSEED", None)
             env.pop("VERIF_C14_ORDER", None)
@@ -372,7 +393,7 @@ def check(tier, seed, workers):
     tmp = os.path.join(runner.base_tmp(), "c14")
     seeds = hashseeds(tier, seed)
     items = (corpus_items(tier) + tool_items(tier) + generated_items(tier, seed) + adapter_generated_items(tier, seed)
-             + derived_items(tier, seed))
+             + derived_items(tier, seed) + unifier_generated_items(tier, seed))
     timeout = float(os.environ.get("VERIF_BUDGET_S") or 0) * 4 or plan["timeout"]
     context = {}
     cells, nontrivial, rows_total, failures = explore(items, seeds, plan["shards"], workers, timeout, tmp,
